@@ -65,6 +65,8 @@ POLICIES = [
     ("responseheaders", "kill"), ("responseheaders", "stream"),
     ("response", "kill"), ("response", "modify"),
     ("both", "stream"),
+    # two cooperating addon actions: bodies are streamed and a later hook kills / answers / edits
+    ("stream+request", "kill"), ("stream+request", "respond"), ("stream+responseheaders", "kill"), ("stream+response", "kill"),
 ]
 SUSPEND = ["none", "request", "response", "all"]
 FLOW_HOOKS = ("requestheaders", "request", "responseheaders", "response", "error")
@@ -72,10 +74,18 @@ FLOW_HOOKS = ("requestheaders", "request", "responseheaders", "response", "error
 
 def make_policy(pol):
     hook, action = pol
+    also_stream = hook.startswith("stream+")
+    if also_stream:
+        hook = hook[len("stream+"):]
 
     def policy(name, data, world):
         if not isinstance(data, http.HTTPFlow):
             return
+        if also_stream:
+            if name == "requestheaders":
+                data.request.stream = True
+            if name == "responseheaders" and data.response is not None:
+                data.response.stream = True
         if action == "stream" and hook == "both":
             if name == "requestheaders":
                 data.request.stream = True
@@ -166,7 +176,8 @@ class Exec:
 
     def request_arrived(self, e):
         msgs, verdict = http1ref.parse_requests(e.w.data)
-        return len(msgs) > getattr(e, "answered", 0) or (verdict == "incomplete" and self.pol[1] == "stream" and len(e.w.data) > 0)
+        streaming = self.pol[1] == "stream" or self.pol[0].startswith("stream+")
+        return len(msgs) > getattr(e, "answered", 0) or (verdict == "incomplete" and streaming and len(e.w.data) > 0)
 
     def run(self, prefix, t: Tally, verbose=False):
         w = World(mode="regular", policy=make_policy(self.pol), suspend=make_suspend(self.susp), snap=h1.http_snap)
